@@ -179,12 +179,16 @@ func (g *agate) freeAll() {
 // runtime wait states ("chan receive", "select", ...): after that a
 // non-blocking send to the channel it waits on is certain to find it.
 func waitBlocked(a *actor, d time.Duration, states ...string) bool {
+	deadline := time.Now().Add(d)
 	id := a.goid.Load()
-	if id == 0 {
-		return false
+	for id == 0 { // the goroutine has not bound itself yet
+		if time.Now().After(deadline) {
+			return false
+		}
+		time.Sleep(100 * time.Microsecond)
+		id = a.goid.Load()
 	}
 	needle := []byte("goroutine " + strconv.FormatInt(id, 10) + " [")
-	deadline := time.Now().Add(d)
 	buf := make([]byte, 1<<20)
 	for {
 		n := runtime.Stack(buf, true)
@@ -205,4 +209,24 @@ func waitBlocked(a *actor, d time.Duration, states ...string) bool {
 		}
 		time.Sleep(100 * time.Microsecond)
 	}
+}
+
+// waitBlockedOrEvent waits until the goroutine of a is blocked in one of the
+// given runtime wait states (true) or posts an event (false; the event is
+// consumed).
+func waitBlockedOrEvent(a *actor, d time.Duration, states ...string) bool {
+	deadline := time.Now().Add(d)
+	for time.Now().Before(deadline) {
+		if e := pendingEvent(a); e != "" {
+			return false
+		}
+		if waitBlocked(a, 2*time.Millisecond, states...) {
+			// blocked for real only if it stays there and no event is pending
+			if e := pendingEvent(a); e != "" {
+				return false
+			}
+			return true
+		}
+	}
+	return false
 }
